@@ -42,6 +42,7 @@ type SliceV struct {
 type AddrV struct { // address of a cell or of a field path inside it
 	Cell *Cell
 	Path []int
+	Nil  string // "" = never nil; otherwise the condition under which this pointer is nil (merged with a nil pointer)
 }
 type ElemAddrV struct {
 	Arr  *Arr
@@ -54,6 +55,7 @@ type PtrV struct { // pointer to a struct object (input objects are lazily mater
 	Cell *Cell
 	Elem types.Type
 	Name string
+	Cands []*Cell // mergedptr only: the objects it may point to
 }
 type FuncV struct {
 	Fn   *ssa.Function
